@@ -173,16 +173,19 @@ package keeper
 //@   flag pure=GetEpochIdentifier,GetOptOutsToFinish,GetConsensusAddrsToPrune,GetUndelegationsToMature
 //@   flag havoc=MarkEpochEnd,DeleteOperatorOptOutFinishEpoch,ClearOptOutsToFinish,ClearConsensusAddrsToPrune,ClearUndelegationsToMature
 //@   modifies state(ctx), trace
+// C06 (the validator set changes in the block that closes a DOGFOOD epoch, and only then): the epoch end is marked for the
+// epoch identifier the module is configured with.
+//@   before[C06.aee.mark] MarkEpochEnd requires defined(res_GetEpochIdentifier_0) && identifier == res_GetEpochIdentifier_0
 //@   before[C16.aee.optouts] SetPendingOptOuts requires arg_addrs.List == res_GetOptOutsToFinish_0
 //@   before[C16.aee.prunes]  SetPendingConsensusAddrs requires arg_addrs.List == res_GetConsensusAddrsToPrune_0
 //@   before[C16.aee.undels]  SetPendingUndelegations requires arg_undelegations.List == res_GetUndelegationsToMature_0
 //@   before[C16.aee.clear1]  ClearOptOutsToFinish requires arg_epoch == epoch && traceN() == old(traceN()) + 1
 //@   before[C16.aee.clear2]  ClearConsensusAddrsToPrune requires arg_epoch == epoch && traceN() == old(traceN()) + 2
 //@   before[C16.aee.clear3]  ClearUndelegationsToMature requires arg_epoch == epoch && traceN() == old(traceN()) + 3
-//@   ensures[C16.aee.all]  identifier == res_GetEpochIdentifier_0 ==> traceN() == old(traceN()) + 3 &&
+//@   ensures[C16.aee.all,C06.aee.all]  identifier == res_GetEpochIdentifier_0 ==> traceN() == old(traceN()) + 3 &&
 //@        traceAt(old(traceN())) == mkEv(81, "pending-optouts", 0) && traceAt(old(traceN()) + 1) == mkEv(82, "pending-prunes", 0) &&
 //@        traceAt(old(traceN()) + 2) == mkEv(83, "pending-undelegations", 0)
-//@   ensures[C16.aee.other] identifier != res_GetEpochIdentifier_0 ==> state(ctx) == old(state(ctx)) && traceN() == old(traceN())
+//@   ensures[C16.aee.other,C06.aee.other] identifier != res_GetEpochIdentifier_0 ==> state(ctx) == old(state(ctx)) && traceN() == old(traceN())
 //@ loop #1
 //@   invariant traceN() == old(traceN()) + 1 && traceAt(old(traceN())) == mkEv(81, "pending-optouts", 0)
 
